@@ -61,6 +61,16 @@ class Fn:
             if isinstance(n,(ast.ListComp,ast.GeneratorExp,ast.SetComp,ast.DictComp)): pass
         self.vars=self.params+loc
         self.is_method = cls is not None and self.params and self.params[0] in ("self",)
+        # a module-level function that writes into one of its parameters (lookup[k] = v): the parameter is threaded like self
+        self.thread=None
+        if cls is None:
+            mut=[]
+            for n in ast.walk(fn):
+                if isinstance(n,ast.Assign):
+                    for t in n.targets:
+                        if isinstance(t,ast.Subscript) and isinstance(t.value,ast.Name) and t.value.id in self.params and t.value.id not in mut: mut.append(t.value.id)
+            if len(mut)==1: self.thread=mut[0]
+            elif len(mut)>1: raise Unsupported("two mutated parameters")
     def tmp(self): self.n+=1; return "t%d"%self.n
     def env(self): return "(" + ", ".join("v_"+v for v in self.vars) + ")" if len(self.vars)>1 else "v_"+self.vars[0]
     def pat(self): return "'"+self.env() if len(self.vars)>1 else self.env()
@@ -108,6 +118,10 @@ class Fn:
                 if e.id not in self.mod.used_globs: self.mod.used_globs.append(e.id)
                 return "g_"+e.id
             raise Unsupported("name "+e.id)
+        if isinstance(e,ast.Attribute) and isinstance(e.value,ast.Name) and e.value.id not in self.vars and e.value.id in getattr(self.mod,"xmods",{}):
+            xm=self.mod.xmods[e.value.id][0]
+            if e.attr in xm.globs: return coq_val(xm.globs[e.attr])
+            raise Unsupported("attribute of module "+e.value.id)
         if isinstance(e,ast.Attribute) and isinstance(e.value,ast.Name) and e.value.id not in self.vars:
             import enum
             obj=getattr(self.mod.py,e.value.id,None)
@@ -124,6 +138,9 @@ class Fn:
                     if e.attr in pc.__dict__ and not callable(pc.__dict__[e.attr]) and not isinstance(pc.__dict__[e.attr],(classmethod,staticmethod)):
                         return coq_val(pc.__dict__[e.attr])
             o=self.ex(e.value,binds); t=self.tmp(); binds.append("%s <- py_getattr %s %s ;; "%(t,o,cq(e.attr))); return t
+        if isinstance(e,ast.BinOp) and isinstance(e.op,ast.Mult) and isinstance(e.left,ast.Constant) and isinstance(e.left.value,str):
+            self.mod.need_lib2=True
+            a=self.ex(e.left,binds); b=self.ex(e.right,binds); t=self.tmp(); binds.append("%s <- py_str_repeat %s %s ;; "%(t,a,b)); return t
         if isinstance(e,ast.BinOp) and type(e.op) in BIN:
             a=self.ex(e.left,binds); b=self.ex(e.right,binds); t=self.tmp(); binds.append("%s <- %s %s %s ;; "%(t,BIN[type(e.op)],a,b)); return t
         if isinstance(e,ast.Compare) and len(e.ops)==1:
@@ -224,7 +241,28 @@ class Fn:
         # module function / class constructor
         if isinstance(f,ast.Name) and f.id in self.mod.funcs:
             callee=self.mod.funcs[f.id]; args=self.resolve_args(callee,e,binds,False); self.calls.add((None,f.id))
+            if Fn(self.mod,None,callee).thread: raise Unsupported("call of a function that mutates its argument")
             return self.call_gen(gname(None,f.id),args,binds,False)
+        # function of an imported module that has its own generated unit (juniper_secrets.juniper_decrypt -> G_fn_jun.gen_juniper_decrypt)
+        if isinstance(f,ast.Attribute) and isinstance(f.value,ast.Name) and f.value.id not in self.vars and f.value.id in getattr(self.mod,"xmods",{}):
+            xm,coqmod=self.mod.xmods[f.value.id]
+            if f.attr not in xm.funcs: raise Unsupported("call "+ast.unparse(f))
+            saved=self.mod; callee=xm.funcs[f.attr]
+            args=self.resolve_args(callee,e,binds,False)
+            return self.call_gen("%s.%s"%(coqmod,gname(None,f.attr)),args,binds,False)
+        # passlib: <scheme>.using(k=v, ...).hash(x)  -- uninterpreted: whatever the py_call parameter answers for ("<scheme>.using.hash", [x], {k: v})
+        if (isinstance(f,ast.Attribute) and f.attr=="hash" and len(e.args)==1 and not e.keywords and isinstance(f.value,ast.Call) and isinstance(f.value.func,ast.Attribute)
+                and f.value.func.attr=="using" and isinstance(f.value.func.value,ast.Name) and f.value.func.value.id in getattr(self.mod,"oracles",()) and not f.value.args):
+            kw="(VDict [%s])"%";".join("(S_ %s, %s)"%(cq(k.arg),self.ex(k.value,binds)) for k in f.value.keywords)
+            x=self.ex(e.args[0],binds); t=self.tmp()
+            binds.append("%s <- py_call (VFun (of_string %s)) (VTuple [(VList [%s]); %s]) ;; "%(t,cq(f.value.func.value.id+".using.hash"),x,kw)); return t
+        # b2a_hex(x.encode())  and  b2a_hex(x.encode()).decode()
+        def is_b2a(c): return (isinstance(c,ast.Call) and isinstance(c.func,ast.Name) and c.func.id=="b2a_hex" and len(c.args)==1 and isinstance(c.args[0],ast.Call)
+                               and isinstance(c.args[0].func,ast.Attribute) and c.args[0].func.attr=="encode" and not c.args[0].args)
+        if is_b2a(e) or (isinstance(f,ast.Attribute) and f.attr=="decode" and not e.args and is_b2a(f.value)):
+            c=e if is_b2a(e) else f.value
+            self.mod.need_lib2=True
+            x=self.ex(c.args[0].func.value,binds); t=self.tmp(); binds.append("%s <- py_b2a_hex_encode %s ;; "%(t,x)); return t
         # library
         A=lambda i: self.ex(e.args[i],binds)
         def lib(name,*args):
@@ -300,9 +338,14 @@ class Fn:
         if isinstance(target,ast.Tuple) and len(target.elts)==2:
             a,b_=self.tmp(),self.tmp()
             return "p_ <- unpack2 %s ;; let '(%s, %s) := p_ in "%(val,a,b_)+self.store(target.elts[0],a)+self.store(target.elts[1],b_)
+        if isinstance(target,ast.Tuple) and len(target.elts)==3:
+            self.mod.need_lib2=True
+            a,b_,c_=self.tmp(),self.tmp(),self.tmp()
+            return "p_ <- unpack3 %s ;; let '(%s, %s, %s) := p_ in "%(val,a,b_,c_)+self.store(target.elts[0],a)+self.store(target.elts[1],b_)+self.store(target.elts[2],c_)
         raise Unsupported("target "+ast.dump(target)[:60])
     # ---- statements -------------------------------------------------------
     def ret(self,atom):
+        if self.thread: return "Ret (VTuple [%s; v_%s])"%(atom,self.thread)
         return "Ret (VTuple [%s; v_self])"%atom if self.is_method else "Ret %s"%atom
     def block(self, stmts, ind):
         sp="  "*ind
@@ -330,6 +373,13 @@ class Fn:
         if isinstance(s,ast.AugAssign) and isinstance(s.target,ast.Name) and type(s.op) in BIN:
             b=[]; a=self.ex(s.value,b); t=self.tmp()
             return sp+"".join(b)+"%s <- %s v_%s %s ;; let v_%s := %s in\n"%(t,BIN[type(s.op)],s.target.id,a,s.target.id,t)+self.block(rest,ind)
+        if (isinstance(s,ast.Try) and not s.orelse and not s.finalbody and len(s.body)==1 and isinstance(s.body[0],ast.Assign) and len(s.body[0].targets)==1
+                and isinstance(s.body[0].targets[0],ast.Name) and len(s.handlers)==1 and isinstance(s.handlers[0].type,ast.Name) and s.handlers[0].type.id=="ValueError"
+                and s.handlers[0].name is None and all(isinstance(x,ast.Pass) for x in s.handlers[0].body)):
+            self.mod.need_lib2=True
+            b=[]; a=self.ex(s.body[0].value,b); v=s.body[0].targets[0].id
+            if any("v_self) := p_" in x for x in b): raise Unsupported("effect in try")
+            return sp+"o_ <- py_try_ve (%sNormal %s) ;; let v_%s := match o_ with Some x_ => x_ | None => v_%s end in\n"%("".join(b),a,v,v)+self.block(rest,ind)
         if isinstance(s,ast.Raise) and isinstance(s.exc,ast.Call) and isinstance(s.exc.func,ast.Name) and s.exc.func.id=="ValueError":
             b=[]; a=self.ex(s.exc,b); return sp+"".join(b)+"Exc (ValueError (match %s with VStr m => m | _ => [] end))"%a
         if isinstance(s,ast.Expr) and isinstance(s.value,ast.Call) and isinstance(s.value.func,ast.Attribute) and s.value.func.attr in ("append","insert") and isinstance(s.value.func.value,ast.Name) and s.value.func.value.id in self.vars:
@@ -351,7 +401,7 @@ class Fn:
         init="".join("let v_%s := VNone in "%v for v in self.vars if v not in self.params)
         name=gname(self.cls,self.fn.name)
         rec = (self.cls,self.fn.name) in self.calls
-        tail = "Ret (VTuple [VNone; v_self])" if self.is_method else "Ret VNone"
+        tail = "Ret (VTuple [VNone; v_self])" if self.is_method else ("Ret (VTuple [VNone; v_%s])"%self.thread if self.thread else "Ret VNone")
         core=" call (%s\n e_ <- ((\n%s) : ctl (%s)) ;; let %s := e_ in %s)"%(init,body,self.ety(),self.pat(),tail)
         if rec:
             return "Fixpoint %s (py_call : pyval -> pyval -> res) (fuel:nat) %s {struct fuel} : res :=\n match fuel with O => Exc OutOfFuel | S fuel =>\n%s\n end."%(name,ps,core)
@@ -362,9 +412,12 @@ class Fn:
         return "(* REFUSED by the translator: %s *)\nDefinition %s (py_call : pyval -> pyval -> res) (fuel:nat) %s : res := Exc Unsupported."%(reason.replace("*)","* )"),gname(self.cls,self.fn.name),ps)
 
 
-def translate_module(path, pymod, wanted=None, oracles=()):
-    """returns (coq text, translated names, {failed name: reason})"""
+def translate_module(path, pymod, wanted=None, oracles=(), xmods=None, external=(), requires=()):
+    """returns (coq text, translated names, {failed name: reason}).
+    xmods: {python module name as written in the source: (python module object, Coq module holding its generated functions)};
+    external: functions of this module that another generated unit already defines (named in `requires`): translated for their signature, not emitted"""
     mod=Mod(path,pymod); mod.oracles=set(oracles)
+    mod.xmods={k:(Mod(v[0].__file__,v[0]),v[1]) for k,v in (xmods or {}).items()}
     out=["(* GENERATED by tools/translate.py from %s -- do not edit *)"%path,"From Coq Require Import List ZArith String.","Require Import PyLib.","Import ListNotations.","Local Open Scope Z_scope.","Local Open Scope string_scope.","",
          "(* every generated function takes py_call: the call of a function-valued field (dispatcher / oracle) *)",""]
     items=[]
@@ -390,16 +443,22 @@ def translate_module(path, pymod, wanted=None, oracles=()):
     done=[]
     hdr_extra=[]
     for g in mod.used_globs: hdr_extra.append("Definition g_%s : pyval := %s."%(g,coq_val(mod.globs[g])))
-    if mod.rx_consts:
+    emitted_text="\n".join(trs[k][1] for k in order if not (k[1] in external and k[0] is None))
+    rx_used={nm:pat for nm,pat in mod.rx_consts.items() if ("RX_"+nm) in emitted_text}
+    if rx_used:
         import rxgen
         E=rxgen.Emitter(); rx=[]
-        for nm,pat in mod.rx_consts.items():
+        for nm,pat in rx_used.items():
             t,_,_=E.pattern(pat,0); rx.append("Definition RX_%s : re := %s."%(nm,t))
         hdr_extra += ["Require Import Rx PyRe.", E.set_defs()] + rx
     if getattr(mod,"need_hash",False): hdr_extra.append("Require Import PyHash.")
+    if getattr(mod,"need_lib2",False): hdr_extra.append("Require Import PyLib2.")
+    for r in requires: hdr_extra.append("Require Import %s."%r)
+    for k,(xm,cm) in mod.xmods.items(): hdr_extra.append("Require %s."%cm)
     out[out.index("")+0:out.index("")+0]=hdr_extra
     for k,txt in stubs.items():
         out.append(txt); out.append("")
     for k in order:
+        if k[1] in external and k[0] is None: continue
         out.append("(* %s.%s : line %d *)"%(k[0],k[1],trs[k][0].fn.lineno)); out.append(trs[k][1]); out.append(""); done.append("%s.%s"%k)
     return "\n".join(out)+"\n", done, {"%s.%s"%k:v for k,v in failed.items()}
